@@ -266,7 +266,7 @@ func c07classify(mp *model.Policy, text, rendering string, run func(text string)
 
 func C07(c *mon.Ctx) {
 	c.Rule = "case = (policy AST, rendering). The harness prints the AST with its own grammar-driven printer (fully parenthesised / minimal parentheses from the documented precedence and associativity / minimal + random whitespace, // comments, trailing commas, identifier-vs-string spellings) and cedar-go's parser must return exactly that AST (structural comparison incl. literals, patterns, annotation order, scope forms). " +
-		"Enumerated: every node kind as parent x every node kind as child x every operand position x 8 atoms (about 5k trees) x 3 renderings, hand-written precedence/negative-literal/escape cases with their prescribed trees, every string class in every string position, all scope forms; random policies on top. A reject list (chained relations, reserved words, unknown identifiers, duplicate keys/annotations, unknown/misused extension functions, unterminated literals, out-of-range integers, bad escapes, malformed scopes) must produce an error. " +
+		"Enumerated: every node kind as parent x every node kind as child x every operand position x 8 atoms (about 5k trees) x 3 renderings, hand-written precedence/negative-literal/escape cases with their prescribed trees, every string class in every string position, all scope forms; random policies on top. A reject list (chained relations, reserved words, unknown identifiers, duplicate keys/annotations, unknown/misused extension functions, unterminated literals, out-of-range integers, bad escapes, malformed scopes) must produce an error; each of the ten reserved words is tried in each of 20 identifier positions (and must be accepted as an annotation key). Large flat inputs: 1200 repetitions of 18 small templates as policies of one document / policy set / decoder stream, as set elements, record values, operands of one && chain and when-clauses of one policy must each parse to the tree the template has on its own. " +
 		"distinct_nontrivial = distinct rendered texts whose condition tree has >= 3 nodes."
 	c.Assume = []string{"the printer emits only texts whose grammar-prescribed tree is beyond dispute (DESIGN.md section 10): no mixed or >4 unary chains without parentheses, extension functions in their documented call style, reserved words never as identifiers",
 		"datetime literals below cedar-go's recorded lower parsing bound are irrelevant here (constructor arguments are just strings)"}
@@ -422,6 +422,8 @@ func C07(c *mon.Ctx) {
 			}
 		}
 	})
+	c07reserved(c)
+	c07bulk(c)
 	c.ParFor("reject-policy", len(c07rejectPolicies), func(w *mon.W, i int) {
 		rj := c07rejectPolicies[i]
 		_, err, pan := parseOne(rj.text)
